@@ -34,3 +34,57 @@ Definition check_edit (x : list (str * str * bool) * config * list (str * str) *
 
 Definition failing {X} (f : X -> bool) (l : list X) : list nat :=
   map fst (filter (fun kx => negb (f (snd kx))) (combine (seq 0 (length l)) l)).
+
+(* ---- the hypotheses of C20_filter as a computable test, run on the lines of every
+   grammar.txt the REAL trainer wrote during the check (stage "trainer -> edit_rules -> guesser") ---- *)
+Definition wf_b (l : gline) : bool :=
+  match tokens (whole l) with [] => false | _ => true end
+  && str_eqb (concat (tokens (whole l))) (gstruct l)
+  && leqb str_eqb (tokens (whole l)) (tokens (gstruct l))
+  && match total_len (tokens (gstruct l)) with Some _ => true | None => false end.
+
+Definition check_wf_line (p : str * str) : bool := wf_b {| gstruct := fst p; gprob := snd p |}.
+Definition check_wf (ls : list (str * str)) : bool := forallb check_wf_line ls.
+
+Lemma leqb_eq {X} (e : X -> X -> bool) :
+  (forall x y, e x y = true -> x = y) -> forall a b, leqb e a b = true -> a = b.
+Proof.
+  intros He a. induction a as [|x a IH]; intros [|y b] H; simpl in H; try discriminate; auto.
+  apply andb_true_iff in H. destruct H as [H1 H2]. f_equal; auto.
+Qed.
+
+Lemma str_eqb_eq a b : str_eqb a b = true -> a = b.
+Proof. apply leqb_eq. intros x y H. now apply N.eqb_eq. Qed.
+
+Lemma wf_b_sound l : wf_b l = true -> well_formed l /\ total_len (tokens (gstruct l)) <> None.
+Proof.
+  unfold wf_b, well_formed. intros H.
+  apply andb_true_iff in H. destruct H as [H H4].
+  apply andb_true_iff in H. destruct H as [H H3].
+  apply andb_true_iff in H. destruct H as [H1 H2].
+  repeat split.
+  - destruct (tokens (whole l)); [discriminate|intro; discriminate].
+  - now apply str_eqb_eq.
+  - apply (leqb_eq str_eqb); [exact str_eqb_eq|exact H3].
+  - destruct (total_len (tokens (gstruct l))); [intro; discriminate|discriminate].
+Qed.
+
+Lemma check_wf_sound ls :
+  check_wf ls = true ->
+  Forall well_formed (mk_lines ls) /\ Forall (fun l => total_len (tokens (gstruct l)) <> None) (mk_lines ls).
+Proof.
+  unfold check_wf, mk_lines. induction ls as [|p r IH]; simpl; intros H; [split; constructor|].
+  apply andb_true_iff in H. destruct H as [Hp Hr]. destruct (IH Hr) as [A B].
+  destruct (wf_b_sound _ Hp) as [W T]. split; constructor; auto.
+Qed.
+
+(* C20_filter for every grammar.txt that passes the test *)
+Theorem edit_is_filter_checked (re_search : str -> str -> bool) c ls :
+  check_wf ls = true ->
+  edit re_search c (mk_lines ls) = Ok (filter (keep re_search c) (mk_lines ls)).
+Proof. intros H. destruct (check_wf_sound _ H) as [A B]. now apply edit_is_filter. Qed.
+
+Example check_wf_example :
+  check_wf [([65;56;68;49], [48;46;53]); ([77], [48;46;52]); ([65;55;68;51], [57;46;57;57;56;101;45;48;53])]%N = true
+  /\ check_wf [([65;55;68;51], [57;46;57;57;56;69;45;48;53])]%N = false.
+Proof. vm_compute. split; reflexivity. Qed.
